@@ -396,6 +396,9 @@ def run(ctx, report):
     from .c12 import shared_table_rule
     shared_table_rule(R10, [ctx.mod('ia32_arch'), ctx.mod('parse_ad'), ctx.mod('ia32_att')])
 
+    R12 = report.rule('C19.D12', 'subtraction groups to the left in both operand grammars: an ambiguous `E : E - E` production has a left-associative precedence entry shared with +, a '
+                      'stratified one recurses on the left (the order of the terms inside a memory operand does not change what it denotes)', floor=3)
+    associativity_rule(R12, [ctx.mod('parse_ad'), ctx.mod('ia32_att')])
     R11 = report.rule('C19.D11', 'the Intel `SIZE PTR seg:[formula]` action evaluated on every segment x address shape, including the same two unscaled registers written in both orders '
                       'and the displacement written first or last: size and segment override survive in every spelling (shared with C03.D3)', floor=100)
     from .c03 import ptrformula_rule
@@ -586,7 +589,111 @@ def disp_outside_rule(ctx, R):
 
 
 
+
+NONASSOC_LEFT = {'MINUS': '-', 'DIVIDE': '/', 'DIV': '/', 'MOD': '%', 'LSHIFT': '<<', 'RSHIFT': '>>'}
+
+
+def grammar_productions(mod):
+    """[(function node, head, [symbols], %prec token or None)] from the docstrings of the p_ functions of a PLY grammar module"""
+    out = []
+    for name, fn in sorted(mod.funcs.items()):
+        if not name.startswith('p_') or name == 'p_error':
+            continue
+        doc = ast.get_docstring(fn) or ''
+        head = None
+        for alt in doc.replace('\n', ' \n ').split('|') if doc else []:
+            pass
+        toks = doc.split()
+        i = 0
+        cur = None
+        while i < len(toks):
+            if i + 1 < len(toks) and toks[i + 1] in (':', '::='):
+                head = toks[i]
+                cur = []
+                out.append([fn, head, cur, None])
+                i += 2
+                continue
+            if toks[i] == '|':
+                cur = []
+                out.append([fn, head, cur, None])
+                i += 1
+                continue
+            if toks[i] == '%prec' and i + 1 < len(toks):
+                out[-1][3] = toks[i + 1]
+                i += 2
+                continue
+            if cur is not None:
+                cur.append(toks[i])
+            i += 1
+    return [tuple(p) for p in out]
+
+
+def precedence_table(mod):
+    from ..consteval import Evaluator, NotConst
+    try:
+        node = mod.assign_value('precedence')
+    except AnalysisError:
+        return {}
+    try:
+        tab = Evaluator({}).ev(node)
+    except NotConst:
+        raise AnalysisError('%s.precedence is not a literal table' % mod.name)
+    out = {}
+    for level, row in enumerate(tab):
+        for tok in row[1:]:
+            out[tok] = (row[0], level)
+    return out
+
+
+def associativity_rule(R, mods):
+    """`a - b + c` is `(a - b) + c`: subtraction (and every operator that is not associative) groups to the left.  A production `E : E - E` needs a `left` entry of the
+    operator in the precedence table; a stratified grammar needs the recursion on the LEFT (`E : E - T`).  `E : T - E` (right recursion) parses `a - b + c` as
+    `a - (b + c)` whatever the table says: two spellings of one memory operand, `[ebx+esi*2-8]` and `[ebx-8+esi*2]`, then denote different displacements."""
+    n = 0
+    for mod in mods:
+        prods = grammar_productions(mod)
+        if len(prods) < 10:
+            raise AnalysisError('%s: only %d productions were read from the p_ functions' % (mod.name, len(prods)))
+        prec = precedence_table(mod)
+        heads = set(p[1] for p in prods)
+        # same-level additive companions: a head that has a right-recursive production for a left-grouping operator
+        for fn, head, syms, pprec in prods:
+            for i, sym in enumerate(syms):
+                if sym not in NONASSOC_LEFT or i == 0 or i == len(syms) - 1:
+                    continue
+                left, right = syms[i - 1], syms[i + 1]
+                if len(syms) != 3 or left not in heads or right not in heads:
+                    continue            # not a binary operator production over nonterminals
+                n += 1
+                inst = '%s: %s : %s' % (mod.name, head, ' '.join(syms))
+                if left == head and right == head:
+                    a = prec.get(pprec or sym)
+                    if a is None or a[0] != 'left':
+                        R.violation(inst, 'assoc:%s:%s:%s' % (mod.name, head, sym), 'the ambiguous production `%s : %s` has no `left` entry for %s in the precedence table (%s): '
+                                    '`a %s b %s c` is not grouped to the left' % (head, ' '.join(syms), sym, a, NONASSOC_LEFT[sym], NONASSOC_LEFT[sym]), where(mod, fn))
+                    else:
+                        # companions of the same level (PLUS beside MINUS) must share the level, or a - b + c regroups
+                        R.ok(inst, sample='%s: `%s : %s` with %s declared left-associative' % (mod.name, head, ' '.join(syms), sym), nontrivial=True)
+                elif right == head and left != head:
+                    R.violation(inst, 'assoc:%s:%s:%s:right-recursive' % (mod.name, head, sym), 'the production `%s : %s` recurses on the right of %s: `a %s b + c` is parsed as `a %s (b + c)`, '
+                                'so the order of the terms of a memory operand changes the displacement (or the operand is rejected)' % (head, ' '.join(syms), sym, NONASSOC_LEFT[sym], NONASSOC_LEFT[sym]),
+                                where(mod, fn), witness="asm('mov eax, [ebx-8+esi*2]') vs asm('mov eax, [ebx+esi*2-8]')")
+                else:
+                    R.ok(inst, sample='%s: `%s : %s` recurses on the left of %s' % (mod.name, head, ' '.join(syms), sym), nontrivial=True)
+        # PLUS and MINUS of one ambiguous level must have the same precedence level
+        if 'PLUS' in prec and 'MINUS' in prec and any(s_ == ['expression', 'MINUS', 'expression'] or (len(s_) == 3 and s_[1] == 'MINUS' and s_[0] == s_[2]) for _, _, s_, _ in prods):
+            n += 1
+            inst = '%s: precedence of PLUS and MINUS' % mod.name
+            if prec['PLUS'][1] != prec['MINUS'][1]:
+                R.violation(inst, 'assoc:%s:levels' % mod.name, 'PLUS and MINUS have different precedence levels (%s, %s): `a - b + c` regroups around the tighter operator' % (prec['PLUS'], prec['MINUS']),
+                            where(mod, mod.tree))
+            else:
+                R.ok(inst, sample='%s: PLUS and MINUS share one left-associative level' % mod.name, nontrivial=True)
+    if n < 3:
+        raise AnalysisError('associativity rule: only %d operator productions were found in the grammars' % n)
+
 MUTANTS = [
+    ('minus-right-associative', 'miasmx/core/parse_ad.py', "    ('left','PLUS','MINUS'),\n    ('left','TIMES'),", "    ('right','PLUS','MINUS'),\n    ('left','TIMES'),", 'C19.D12'),
     ('numpy-imm-true-kept', 'miasmx/arch/ia32_arch.py', "        size.discard(True)\n        size.discard(x86_afs.u32)", "        size.discard(x86_afs.u32)", 'C19.D8'),
     ('att-sreg-size', 'miasmx/arch/ia32_att.py', "    # same operand size as the Intel parser gives them\n    registers[name] = x86_afs.u32", "    registers[name] = x86_afs.size_seg", 'C19.D4'),
     ('cmov-strip-l', 'miasmx/arch/ia32_arch.py', "        elif len(name) > 5 and name.endswith('l') \\\n                and not name in x86mndb.mnemo_lookup:", "        elif len(name) > 5 and name.endswith('l'):", 'C19.D4'),
